@@ -965,6 +965,15 @@ class Interp:
                 return self._bind_through_deref(p, v, env)
             return None
         if k == "PTupleStruct":
+            if isinstance(v, Var) and v.path == "MAPENTRY" and norm(p.get("path") or "").endswith(("Entry::Occupied", "Entry::Vacant")) and len(p["pats"]) == 1:
+                m_, k0 = v.args
+                if not isinstance(m_, ListV) or is_unknown(k0):
+                    return None
+                idx = next((i_ for i_, (k_, _) in enumerate(m_.items) if _plain(k_) == _plain(k0)), None)
+                want_occ = norm(p.get("path")).endswith("Entry::Occupied")
+                if (idx is not None) != want_occ:
+                    return False
+                return self.bind(p["pats"][0], Var("MAPOCC", [m_, idx]) if want_occ else Var("MAPVAC", [m_, k0]), env)
             if isinstance(v, Var):
                 if norm(v.path) != norm(p.get("path")):
                     if self.same_enum(v.path, p.get("path")):
@@ -2329,6 +2338,55 @@ class Interp:
                         return Var(SOME_PATHS[0], [v_])
                 recv.items.append((args[0], args[1]))
                 return Var(NONE_PATHS[0])
+        if isinstance(recv, Var) and recv.path == "MAPENTRY" and name == "key" and not args:
+            return recv.args[1]
+        if isinstance(recv, Var) and recv.path == "MAPENTRY" and name == "and_modify" and len(args) == 1:
+            m_, k0 = recv.args
+            for i_, (k_, v_) in enumerate(m_.items):
+                if _plain(k_) == _plain(k0):
+                    r_ = self.apply(args[0], [v_ if isinstance(v_, (Var, ListV, Rope)) else _map_value_ref(m_, i_)])
+                    if is_unknown(r_):
+                        return r_
+            return recv
+        if isinstance(recv, Var) and recv.path == "MAPOCC":
+            m_, i_ = recv.args
+            if 0 <= i_ < len(m_.items):
+                k_, v_ = m_.items[i_]
+                if name == "key" and not args:
+                    return k_
+                if name == "get" and not args:
+                    return v_
+                if name in ("get_mut", "into_mut") and not args:
+                    return v_ if isinstance(v_, (Var, ListV, Rope)) else _map_value_ref(m_, i_)
+                if name == "insert" and len(args) == 1:
+                    m_.items[i_] = (k_, args[0])
+                    return v_
+                if name in ("remove", "swap_remove", "shift_remove") and not args:
+                    if name == "swap_remove" and i_ != len(m_.items) - 1:
+                        m_.items[i_] = m_.items[-1]
+                        m_.items.pop()
+                    else:
+                        m_.items.pop(i_)
+                    return v_
+                if name in ("remove_entry", "shift_remove_entry") and not args:
+                    m_.items.pop(i_)
+                    return (k_, v_)
+                if name == "index" and not args:
+                    return i_
+            return Unknown("occupied entry method %s" % name)
+        if isinstance(recv, Var) and recv.path == "MAPVAC":
+            m_, k0 = recv.args
+            if name in ("key",) and not args:
+                return k0
+            if name == "into_key" and not args:
+                return k0
+            if name == "insert" and len(args) == 1:
+                m_.items.append((k0, args[0]))
+                v_ = args[0]
+                return v_ if isinstance(v_, (Var, ListV, Rope)) or is_unknown(v_) else _map_value_ref(m_, len(m_.items) - 1)
+            if name == "index" and not args:
+                return len(m_.items)
+            return Unknown("vacant entry method %s" % name)
         if isinstance(recv, Var) and recv.path == "MAPENTRY" and name in ("or_default", "or_insert", "or_insert_with"):
             m_, k0 = recv.args
             for i_, (k_, v_) in enumerate(m_.items):
@@ -2375,6 +2433,11 @@ class Interp:
         r = self.builtin_more(name, cn, recv, args, n)
         if r is not NotImplemented:
             return r
+        if isinstance(recv, MutRef):
+            # a method that reads through `&mut T` (`price.max(0.0)` on a `&mut f64`)
+            cur = recv.get()
+            if not isinstance(cur, MutRef) and not is_unknown(cur):
+                return self.builtin_method(name, cn, cur, args, n)
         return Unknown("method %s (%s) on %r" % (name, cn, recv))
 
     def _ord_key(self, x):
@@ -2389,6 +2452,10 @@ class Interp:
         if isinstance(x, tuple):
             ks = [self._ord_key(y) for y in x]
             return None if any(k is None for k in ks) else (3, tuple(ks))
+        if isinstance(x, ListV):
+            # vectors and slices order lexicographically
+            ks = [self._ord_key(y) for y in x.items]
+            return None if any(k is None for k in ks) else (4, tuple(ks))
         return None
 
     def builtin_more(self, name, cn, recv, args, n):
@@ -2404,6 +2471,24 @@ class Interp:
             r = self.apply(f, xs)
             return r if isinstance(r, bool) else Unknown("predicate not boolean: %r" % (r,))
         # ---- Option / Result
+        if name == "unwrap_or_default" and not args and (some or none or ok or err):
+            if some or ok:
+                return recv.args[0]
+            ty = self.F.ty(n) or ""
+            t0 = ty.replace("&", "").replace("mut ", "").strip()
+            if t0 in ("f64", "f32"):
+                return 0.0
+            if t0 in ("usize", "u64", "i64", "u32", "i32", "u16", "i16", "u8", "i8", "isize", "u128", "i128"):
+                return 0
+            if t0 == "bool":
+                return False
+            if t0 in ("std::string::String", "alloc::string::String", "String"):
+                return Rope()
+            if t0.startswith(("std::vec::Vec<", "alloc::vec::Vec<", "Vec<")) or "IndexMap<" in t0 or "HashMap<" in t0 or "IndexSet<" in t0 or "HashSet<" in t0:
+                return ListV([])
+            if t0.startswith(("std::option::Option<", "core::option::Option<", "Option<")):
+                return NONE
+            return Unknown("default value of " + ty)
         if some or none:
             if name == "is_some_and" and len(args) == 1:
                 return pred(args[0], [recv.args[0]]) if some else False
